@@ -4,8 +4,7 @@ cd /verif
 R=${1:-5}
 for r in $(seq 1 $R); do
   for id in C01 C02 C03 C04 C05 C06 C07 C08 C09 C10 C11 C12 C13 C14 C15 C16 C17 C18 C19 C20; do
-    case $id in C09|C11|C13|C18) B=enumk;; C12|C14|C15|C16|C17|C19|C20) B=netsim;; *) B=vsim;; esac
-    OUT=$(VERIF_SEED=$r ./target/release/$B $id quick 2>&1); RC=$?
+    OUT=$(VERIF_SEED=$r ./check $id quick 2>&1); RC=$?
     if [ $RC -ne 0 ]; then echo "round $r $id exit $RC"; echo "$OUT" | grep -E "^violation|MACHINERY|panicked" | head -3 | cut -c1-300; fi
   done
 done
